@@ -962,6 +962,8 @@ def node_line(i: int, n: Dict[str, Any]) -> str:
 
 def heap_line(heap: Dict[str, Any]) -> str:
     tries = f" (tries {heap['tries']})" if heap.get("tries", 1) > 1 else ""
+    if heap.get("again", 0):
+        tries += f" (again {heap['again']})"
     return ("(g (roots " + " ".join(map(str, heap["roots"])) + f") (via {heap.get('via', 0)}){tries} "
             + " ".join(node_line(i, n) for i, n in enumerate(heap["nodes"])) + ")")
 
@@ -1014,6 +1016,11 @@ def parse_heap(line: str) -> Dict[str, Any]:
             # harness only: repeat the conversion up to n times and report the first run that deviates from the input
             # (the way to observe an allocation dependent, i.e. nondeterministic, defect on a fixed witness)
             heap["tries"] = int(item[1])
+        elif item[0] == "again":
+            # harness only (C05): history after the first reload -- the application edits every mutable JSON-column
+            # value of the reloaded objects IN MEMORY (nothing is written), then the same rows are loaded again in a
+            # fresh session, n times. The database is unchanged, so the property demands the same graph every time.
+            heap["again"] = int(item[1])
         elif item[0] == "n":
             _, oid, cls, _kind, scal, _mapping, view, _tabs, *refs = item
             assert int(oid) == len(heap["nodes"])
@@ -1072,6 +1079,8 @@ def prune(heap, roots=None, via=None) -> Dict[str, Any]:
     out = {"nodes": nodes, "roots": [idx[r] for r in roots], "via": heap.get("via", 0) if via is None else via}
     if heap.get("tries", 1) > 1:
         out["tries"] = heap["tries"]
+    if heap.get("again", 0):
+        out["again"] = heap["again"]
     return out
 
 
@@ -1298,6 +1307,10 @@ def shrink_heap(heap):
     if heap.get("via", 0):
         h = copy.deepcopy(heap)
         h["via"] = 0
+        out.append(h)
+    if heap.get("again", 0):
+        h = copy.deepcopy(heap)
+        h["again"] = heap["again"] - 1
         out.append(h)
     res = []
     seen = set()
@@ -1947,6 +1960,69 @@ def work_c05(line: str) -> str:
         _cleanup_symbols()
 
 
+def mutable_slots(roots: List[Any]) -> List[Tuple[Any, str, Any]]:
+    """(owner, path, value) for every MUTABLE scalar value (list, dict, JSON value object -- also as an element of
+    such a list) held by the mapped objects reachable from ``roots``; a mapped object counts once (by identity)"""
+    import dataclasses
+    import enum as _enum
+    import types as _types
+
+    def is_json(v) -> bool:
+        return (not isinstance(v, (type, _enum.Enum))
+                and any(b.__name__ == "SubclassJSONSerializer" for b in type(v).__mro__))
+
+    def is_node(v) -> bool:
+        return dataclasses.is_dataclass(v) and not isinstance(v, type) and not is_json(v)
+
+    out: List[Tuple[Any, str, Any]] = []
+    seen: Dict[int, Any] = {}
+    work = list(roots)
+    while work:
+        o = work.pop()
+        if id(o) in seen or not is_node(o) or isinstance(o, _types.FunctionType):
+            continue
+        seen[id(o)] = o
+        for f in dataclasses.fields(o):
+            v = getattr(o, f.name, None)
+            path = f"{type(o).__name__}.{f.name}"
+            if is_node(v):
+                work.append(v)
+            elif isinstance(v, (list, tuple, set)) and v and all(is_node(x) for x in v):
+                work.extend(v)
+            elif isinstance(v, (list, dict)) or is_json(v):
+                out.append((o, path, v))
+                if isinstance(v, list):
+                    out.extend((o, path + "[]", x) for x in v if isinstance(x, (list, dict)) or is_json(x))
+    return out
+
+
+def perturb_in_memory(slots, mode: int) -> int:
+    """what an application may do with objects it loaded: edit their mutable values in place (never the database).
+    -> number of values edited"""
+    n = 0
+    for _, _, v in slots:
+        if isinstance(v, list):
+            if v and mode % 2:
+                v.clear()
+            else:
+                v.append(v[0] if v else "verif")
+            n += 1
+        elif isinstance(v, dict):
+            v["verif"] = mode
+            n += 1
+        else:
+            for k, x in list(vars(v).items()):
+                if isinstance(x, bool):
+                    continue
+                if isinstance(x, (int, float)):
+                    object.__setattr__(v, k, x + 1 + mode)
+                    n += 1
+                elif isinstance(x, str):
+                    object.__setattr__(v, k, x + "~")
+                    n += 1
+    return n
+
+
 def _persist_reload_once(heap, want, ex, iface, engine, Session, select, func, FromDAOState, ToDAOState, to_dao):
     if True:
         objs = build_objects(heap, ex)
@@ -1961,21 +2037,44 @@ def _persist_reload_once(heap, want, ex, iface, engine, Session, select, func, F
         for r in heap["roots"]:
             chain = SCHEMA[heap["nodes"][r]["cls"]]["chain"]
             via_classes.append(getattr(iface, chain[min(heap["via"], len(chain) - 1)]))
-        with Session(engine) as b:
-            fstate = FromDAOState()
-            res = []
-            rows = []  # FromDAOState.memo is keyed by id(dao): the loaded DAOs must stay alive while it is shared
-            for pk, via in zip(ids, via_classes):
-                row = b.scalars(select(via).where(via.database_id == pk)).one()
-                rows.append(row)
-                res.append(row.from_dao(fstate))
-            got = abstract(res)
-            counts = {}
-            for t in iface.Base.metadata.sorted_tables:
-                c = b.execute(select(func.count()).select_from(t)).scalar()
-                if c:
-                    counts[t.name] = c
-        text = canon_heap(got)
-        if text != canon_heap(want) and iso_multiset(want, got):
-            text = canon_heap(want)  # same graph up to the order inside collections: what the property demands
-        return text, text + " rows:" + ",".join(f"{k}={v}" for k, v in sorted(counts.items()))
+        keep = []  # everything reloaded so far stays alive: identities are compared across sessions
+        owner_of: Dict[int, Tuple[int, str]] = {}  # id(mutable value) -> (id(owner), path) of the first holder
+        text = result = ""
+        for k in range(1 + heap.get("again", 0)):
+            with Session(engine) as b:
+                fstate = FromDAOState()
+                res = []
+                rows = []  # FromDAOState.memo is keyed by id(dao): the loaded DAOs must stay alive while it is shared
+                for pk, via in zip(ids, via_classes):
+                    row = b.scalars(select(via).where(via.database_id == pk)).one()
+                    rows.append(row)
+                    res.append(row.from_dao(fstate))
+                got = abstract(res)
+                counts = {}
+                for t in iface.Base.metadata.sorted_tables:
+                    c = b.execute(select(func.count()).select_from(t)).scalar()
+                    if c:
+                        counts[t.name] = c
+            keep.append((rows, res))
+            t_k = canon_heap(got)
+            if t_k != canon_heap(want) and iso_multiset(want, got):
+                t_k = canon_heap(want)  # same graph up to the order inside collections: what the property demands
+            # distinct objects of the input hold distinct mutable values (build_objects decodes every field afresh):
+            # a reloaded graph in which two holders -- of this or of an earlier session -- share one is not isomorphic
+            slots = mutable_slots(res)
+            shared = set()
+            for o, path, v in slots:
+                first = owner_of.setdefault(id(v), (id(o), path))
+                if first != (id(o), path):
+                    shared.add(path)
+            if shared:
+                t_k = "shared-mutable-value:" + ",".join(sorted(shared)) + " " + t_k
+            r_k = t_k + " rows:" + ",".join(f"{n}={v}" for n, v in sorted(counts.items()))
+            if k == 0:
+                text, result = t_k, r_k
+            elif r_k != result:  # the first later reload that does not return what the first one returned
+                return f"reload#{k + 1}:" + t_k, f"reload#{k + 1}:" + r_k
+            if t_k != canon_heap(want):
+                break
+            perturb_in_memory(slots, k)
+        return text, result
